@@ -52,6 +52,23 @@ def c08_scenarios(tier, rng):
                         for h in hists:
                             sid += 1
                             out.append(dict(base, id=sid, steps=h))
+    # simple-one-for-one: n instances of one spec; faults name the k-th running instance
+    for strategy in ["perm", "trans", "temp"]:
+        n = 3
+        base = dict(n=n, type="sofo", strategy=strategy, keeporder=False, autoshutdown=False, sig=[False] * n, intensity=50, period=5, clock=False)
+        hists = []
+        for i in range(1, n + 1):
+            for r in REASONS:
+                hists.append([{"op": "batch", "faults": [[i, r]]}, {"op": "batch", "faults": [[1, "abn"]]}])
+        for (i, j) in [(1, 2), (2, 1), (1, 3), (3, 2)]:
+            for r in ("abn", "normal", "kill"):
+                hists.append([{"op": "batch", "faults": [[i, r], [j, "abn"]]}, {"op": "batch", "faults": [[1, "kill"]]}])
+        hists.append([{"op": "batch", "faults": [[1, "abn"], [2, "abn"], [3, "abn"]]}])
+        hists.append([{"op": "disable", "i": 1}, {"op": "startchild"}, {"op": "enable", "i": 1}, {"op": "startchild"}, {"op": "batch", "faults": [[1, "abn"]]}, {"op": "startchild"}])
+        hists.append([{"op": "batch", "faults": [[2, "normal"]]}, {"op": "disable", "i": 1}, {"op": "batch", "faults": [[1, "abn"]]}, {"op": "enable", "i": 1}])
+        for h in hists:
+            sid += 1
+            out.append(dict(base, id=sid, steps=h))
     return out
 
 
@@ -67,7 +84,25 @@ def c09_scenarios(tier, rng):
                 rng.shuffle(combos)
                 for c in combos[: (12 if tier == "quick" else 60)]:
                     pats.append((I, P, c))
-    for typ in ["ofo", "afo", "rfo"]:
+    # simple-one-for-one: instances stopped by DisableChild are not failures; real failures afterwards get the full budget
+    for I in (1, 2, 3):
+        for nchild in (2, 4):
+            for strategy in ("perm", "trans"):
+                # DisableChild stops every instance (no failures); after EnableChild new instances get the whole budget
+                sid += 1
+                out.append(dict(id=sid, n=nchild, type="sofo", strategy=strategy, keeporder=False, autoshutdown=False, sig=[False] * nchild,
+                                intensity=I, period=30, clock=True,
+                                steps=[{"op": "disable", "i": 1}, {"op": "enable", "i": 1}, {"op": "startchild"}, {"op": "startchild"}] +
+                                      [{"op": "batch", "faults": [[1, "abn"]]}] * (I + 1)))
+                sid += 1
+                out.append(dict(id=sid, n=nchild, type="sofo", strategy=strategy, keeporder=False, autoshutdown=False, sig=[False] * nchild,
+                                intensity=I, period=30, clock=True,
+                                steps=[{"op": "batch", "faults": [[1, "abn"]]}] * I + [{"op": "batch", "faults": [[1, "abn"]]}]))
+                sid += 1
+                out.append(dict(id=sid, n=nchild, type="sofo", strategy=strategy, keeporder=False, autoshutdown=False, sig=[False] * nchild,
+                                intensity=I, period=30, clock=True,
+                                steps=[{"op": "batch", "faults": [[1, "abn"]]}] * I + [{"op": "advance", "ms": 31000}, {"op": "batch", "faults": [[1, "abn"]]}]))
+    for typ in ["ofo", "afo", "rfo", "sofo"]:
         for (I, P, gaps) in pats:
             for nchild in ([1, 3] if tier == "thorough" else [3]):
                 steps = [{"op": "batch", "faults": [[1, "abn"]]}]
@@ -75,7 +110,7 @@ def c09_scenarios(tier, rng):
                     steps.append({"op": "advance", "ms": g})
                     steps.append({"op": "batch", "faults": [[1 if nchild == 1 else rng.choice([1, 2, 3]), "abn"]]})
                 sid += 1
-                out.append(dict(id=sid, n=nchild, type=typ, strategy="perm", keeporder=False, autoshutdown=True, sig=[False] * nchild,
+                out.append(dict(id=sid, n=nchild, type=typ, strategy="perm", keeporder=False, autoshutdown=(typ != "sofo"), sig=[False] * nchild,
                                 intensity=I, period=P, clock=True, steps=steps))
     return out
 
